@@ -378,7 +378,7 @@ theorem runRule_rule (o : Options) (w : Schema) (r : Rule) (a : Annotation) (h :
       first
         | exact groupRule_rule _ _ _ _ _ a h
         | exact importCycle_rule w a h
-        | (obtain ⟨x, _, rfl⟩ := rpcUniqueT_sub o _ a h; rfl)
+        | (obtain ⟨x, _, rfl⟩ := rpcUniqueT_sub o _ a (rpcUniqueCoded_sub o w a h); rfl)
         | (obtain ⟨f, _, _, i, imp, _, g, _, _, rfl⟩ := (mem_stableNoUnstable_iff w a).mp h; rfl)
         | (simp at h)
 
